@@ -265,13 +265,13 @@ Proof.
   intros H. destruct (tk t); try discriminate; reflexivity.
 Qed.
 
-Definition short_tattr (nm : str) (pos : nat) (v : str) : tattr :=
-  mkTAttr (Some [literal_tok nm]) (Some [word_tok pos v]) false false.
+Definition short_tattr (nm : str) (pos : nat) (v : str) (multiple : bool) : tattr :=
+  mkTAttr (Some [literal_tok nm]) (Some [word_tok pos v]) false multiple.
 
 Definition part_tattrs (pos : nat) (p : spart) : list tattr :=
   match p with
-  | PId v => [short_tattr s_id (pos + 1) v]
-  | PClass v => [short_tattr s_class (pos + 1) v]
+  | PId k v => [short_tattr s_id (pos + S k) v (Nat.ltb 1 (S k))]
+  | PClass k v => [short_tattr s_class (pos + S k) v (Nat.ltb 1 (S k))]
   | PSet l => set_tattrs (pos + 1) l
   end.
 Fixpoint parts_tattrs (pos : nat) (ps : list spart) : list tattr :=
@@ -285,17 +285,32 @@ Fixpoint add_parts (s : est) (pos : nat) (ps : list spart) : est :=
   | p :: ps' => add_parts (est_add_attrs s (part_tattrs pos p)) (pos + length (part_text p)) ps'
   end.
 
-(* `#v` / `.v` *)
-Lemma short_attribute_word jsx ty o w rest :
-  tk o = TOperator ty -> (exists v, tk w = TLiteral v) -> pstop rest ->
-  short_attribute jsx ty (o :: w :: rest) =
-    Some (mkTAttr (Some [literal_tok (match ty with OpId => s_id | _ => s_class end)]) (Some [w]) false false, 2).
+(* `#v` / `.v`, also with the operator repeated *)
+Lemma op_run_length o pos n : length (op_run o pos n) = n.
+Proof. revert pos. induction n as [|n IH]; intros pos; [reflexivity|]. cbn [op_run length]. rewrite IH. reflexivity. Qed.
+
+Lemma span_op_run ty : (ty = OpId \/ ty = OpClass) -> forall n pos X,
+  span_tok (fun t => is_operator t (Some ty)) (op_run ty pos n ++ X) = n + span_tok (fun t => is_operator t (Some ty)) X.
 Proof.
-  intros Ho [v Hw] Hst. unfold short_attribute. cbn [span_tok].
-  assert (E1 : is_operator o (Some ty) = true).
-  { unfold is_operator. rewrite Ho. destruct ty; reflexivity. }
+  intros Hty. induction n as [|n IH]; intros pos X; [reflexivity|].
+  cbn [op_run app span_tok]. replace (is_operator (tk1 (TOperator ty) pos) (Some ty)) with true
+    by (destruct Hty as [-> | ->]; reflexivity).
+  rewrite IH. reflexivity.
+Qed.
+
+Lemma short_attribute_word jsx ty n pos w rest :
+  (ty = OpId \/ ty = OpClass) -> (exists v, tk w = TLiteral v) -> pstop rest ->
+  short_attribute jsx ty (op_run ty pos (S n) ++ w :: rest) =
+    Some (mkTAttr (Some [literal_tok (match ty with OpId => s_id | _ => s_class end)]) (Some [w]) false (Nat.ltb 1 (S n)),
+          S n + 1).
+Proof.
+  intros Hty [v Hw] Hst. unfold short_attribute.
+  rewrite (span_op_run ty Hty (S n) pos (w :: rest)).
   assert (E2 : is_operator w (Some ty) = false) by (unfold is_operator; rewrite Hw; reflexivity).
-  rewrite E1, E2. cbn [skipn Nat.ltb Nat.leb].
+  cbn [span_tok]. rewrite E2. rewrite Nat.add_0_r.
+  assert (Hsk : skipn (S n) (op_run ty pos (S n) ++ w :: rest) = w :: rest).
+  { rewrite <- (op_run_length ty pos (S n)) at 1. apply skipn_app_exact. }
+  rewrite Hsk.
   assert (Htx : text (w :: rest) = 0) by (unfold text, is_bracket; rewrite Hw; reflexivity).
   rewrite Htx.
   assert (Hl : literal false (w :: rest) = 1).
@@ -353,17 +368,23 @@ Lemma elem_body_part jsx s pos p rest :
   spart_ok p -> pstop rest ->
   elem_body jsx s (part_toks pos p ++ rest) = ECont (est_add_attrs s (part_tattrs pos p)) (length (part_toks pos p)).
 Proof.
-  intros Hok Hst. destruct p as [v|v|l]; cbn [part_toks app].
-  - apply elem_body_default; [reflexivity|]. cbv zeta.
+  intros Hok Hst. destruct p as [k v|k v|l]; cbn [part_toks].
+  - rewrite <- app_assoc. cbn [app]. rewrite app_length, op_run_length. cbn [length].
+    cbn [op_run app]. apply elem_body_default; [reflexivity|]. cbv zeta.
     rewrite text_zero by reflexivity.
-    rewrite (short_attribute_word jsx OpId) by (try reflexivity; try exact Hst; eexists; reflexivity).
+    change (tk1 (TOperator OpId) pos :: op_run OpId (pos + 1) k ++ word_tok (pos + S k) v :: rest)
+      with (op_run OpId pos (S k) ++ word_tok (pos + S k) v :: rest).
+    rewrite (short_attribute_word jsx OpId k pos) by (try exact Hst; auto; eexists; reflexivity).
     destruct (e_value s); reflexivity.
-  - apply elem_body_default; [reflexivity|]. cbv zeta.
+  - rewrite <- app_assoc. cbn [app]. rewrite app_length, op_run_length. cbn [length].
+    cbn [op_run app]. apply elem_body_default; [reflexivity|]. cbv zeta.
     rewrite text_zero by reflexivity.
     rewrite (short_attribute_other jsx OpId) by reflexivity.
-    rewrite (short_attribute_word jsx OpClass) by (try reflexivity; try exact Hst; eexists; reflexivity).
+    change (tk1 (TOperator OpClass) pos :: op_run OpClass (pos + 1) k ++ word_tok (pos + S k) v :: rest)
+      with (op_run OpClass pos (S k) ++ word_tok (pos + S k) v :: rest).
+    rewrite (short_attribute_word jsx OpClass k pos) by (try exact Hst; auto; eexists; reflexivity).
     destruct (e_value s); reflexivity.
-  - apply elem_body_default; [reflexivity|]. cbv zeta.
+  - cbn [app]. apply elem_body_default; [reflexivity|]. cbv zeta.
     rewrite text_zero by reflexivity.
     rewrite (short_attribute_other jsx OpId) by reflexivity.
     rewrite (short_attribute_other jsx OpClass) by reflexivity.
@@ -380,7 +401,7 @@ Proof.
 Qed.
 
 Lemma part_toks_cons pos p : exists t r, part_toks pos p = t :: r.
-Proof. destruct p; cbn [part_toks]; eauto. Qed.
+Proof. destruct p; cbn [part_toks op_run app]; eauto. Qed.
 
 Lemma elem_loop_parts jsx : forall ps s pos rest,
   Forall spart_ok ps -> pstop rest ->
